@@ -332,7 +332,10 @@ type openedRsp struct {
 }
 
 func openReply(pkt []byte, localID uint32, integ byte, k1, k2 []byte) (*openedRsp, string) {
-	if len(pkt) < 16 || pkt[0] != 6 || pkt[3]&0x0f != 7 || pkt[3]&0x80 != 0 {
+	// the RMCP header is outside the authenticated region: only the class nibble decides whether this is IPMI; version,
+	// reserved byte, sequence and the ACK bit cannot change what the packet carries (C04 asks that tampering never
+	// changes the VALUE, not that every tampered packet be refused)
+	if len(pkt) < 16 || pkt[3]&0x0f != 7 {
 		return nil, "not an RMCP IPMI data packet"
 	}
 	w := pkt[4:]
